@@ -244,6 +244,7 @@ struct Snap {
     controls: Vec<u64>,
     quota_avail: TokenAmount,
     epoch: i64,
+    has_claim: bool,
 }
 
 fn raw_table(vf: &VestingFunds, store: &dyn Blockstore) -> Vec<(i64, BigInt)> {
@@ -284,6 +285,10 @@ fn snapshot(w: &W) -> Snap {
         quota_avail: info.beneficiary_term.available(epoch),
         st,
         epoch,
+        has_claim: {
+            let ps: PowerState = get_state(&w.v, &STORAGE_POWER_ACTOR_ADDR).unwrap();
+            ps.get_claim(w.v.store.as_ref(), &w.miner).ok().flatten().is_some()
+        },
     }
 }
 impl Snap {
@@ -322,6 +327,7 @@ struct Plan {
     small_batches: bool,
     circ_fil: i64,
     workflow_onboard: u64,
+    fault_age_periods: i64,
 }
 
 fn setup(plan: &Plan) -> W {
@@ -329,6 +335,10 @@ fn setup(plan: &Plan) -> W {
     if plan.small_batches {
         // force `more` early terminations (deferred to the next epoch's cron)
         v.policy.addressed_sectors_max = 2;
+    }
+    if plan.fault_age_periods > 0 {
+        // faulty sectors are terminated early after this many proving periods (default 42)
+        v.policy.fault_max_age = v.policy.wpost_proving_period * plan.fault_age_periods;
     }
     let accts = fil_actors_integration_tests::util::create_accounts(&v, 6, &TokenAmount::from_whole(1_000_000));
     v.set_circulating_supply(TokenAmount::from_whole(plan.circ_fil));
@@ -793,13 +803,26 @@ fn observe_inv(
             }
         }
     }
-    // F1: the power actor rejected UpdatePledgeTotal (not injected)
+    // F1: the power actor rejected UpdatePledgeTotal with illegal_state (not injected)
     if !ok && !ctx.injected {
-        if let Some(s) = t.subinvocations.iter().find(|s| s.to == STORAGE_POWER_ACTOR_ADDR && s.method == PowerMethod::UpdatePledgeTotal as u64 && !s.exit_code.is_success()) {
+        let upt = t.subinvocations.iter().find(|s| s.to == STORAGE_POWER_ACTOR_ADDR && s.method == PowerMethod::UpdatePledgeTotal as u64 && !s.exit_code.is_success());
+        let no_claim_send = t.subinvocations.iter().any(|s| s.to == STORAGE_POWER_ACTOR_ADDR && !s.exit_code.is_success()) && !pre.has_claim;
+        if let Some(s) = upt.filter(|s| s.exit_code.value() == 20) {
             fails.push(("F1-pledge-total-negative".into(), format!("{}: power actor rejected UpdatePledgeTotal with {} -> handler failed with {} (padded network pledge: {})", kind, s.exit_code.value(), codev, w.padded)));
+            CLAIM_LOSS_EXPLAINED.with(|c| *c.borrow_mut() = true);
+        } else if no_claim_send {
+            // the power actor deleted the miner's claim after a failed cron callback: every later call to it is forbidden
+            *stats.extra.entry("handler_failures_after_claim_deleted".into()).or_insert(serde_json::json!(0)) =
+                serde_json::json!(stats.extra.get("handler_failures_after_claim_deleted").and_then(|x| x.as_u64()).unwrap_or(0) + 1);
+            if !CLAIM_LOSS_EXPLAINED.with(|c| *c.borrow()) {
+                fails.push(("claim-deleted-unexplained".into(), format!("{}: the miner has no power claim although no cron callback failed under an injected failure or F1", kind)));
+            }
         } else if kind == "cron_deadline" || kind == "cron_early_term" {
             fails.push(("deadline-cron-failed".into(), format!("{} failed with {} without an injected failure", kind, codev)));
         }
+    }
+    if !ok && ctx.injected && (kind == "cron_deadline" || kind == "cron_early_term") {
+        CLAIM_LOSS_EXPLAINED.with(|c| *c.borrow_mut() = true);
     }
     let mut obs = vec![cf::z(codev), zt(&charged), zt(&burnt), zt(&paid), "KEPT".to_string(), zt(&paid_out)];
     obs.extend(sends_enc);
@@ -816,6 +839,9 @@ fn pre_gate_param_failure(_t: &InvocationTrace) -> bool {
         let s = m.borrow();
         s.contains("failed to process deadline") || s.contains("cannot process requested parameters")
     })
+}
+thread_local! {
+    static CLAIM_LOSS_EXPLAINED: std::cell::RefCell<bool> = std::cell::RefCell::new(false);
 }
 thread_local! {
     static LAST_MSG: std::cell::RefCell<String> = std::cell::RefCell::new(String::new());
@@ -964,6 +990,7 @@ struct Run<'a> {
     case: u64,
     agenda: Vec<Act>,
     want_sectors: usize,
+    cron_faults: bool,
 }
 
 impl<'a> Run<'a> {
@@ -976,6 +1003,7 @@ impl<'a> Run<'a> {
         self.w.v.fail_plan.replace(None);
         let injected_hit = plan.is_some();
         let label = format!("{}{}@{} -> {}", what, plan.map(|p| format!("+fail[{}:{}]", p.0, p.1.value())).unwrap_or_default(), pre.epoch, d.code);
+        if std::env::var("PENALTY_DEBUG").is_ok() { eprintln!("[{}] {} :: {}", self.case, label, d.msg.chars().take(160).collect::<String>()); }
         self.h.script.push(label);
         let (step, fails) = observe(&self.w, &pre, est, &d, injected_hit, self.stats);
         if let Some(s) = step { self.h.steps.push(s); }
@@ -1046,7 +1074,7 @@ impl<'a> Run<'a> {
                                 chain_commit_rand: Randomness(TEST_VM_RAND_ARRAY.into()),
                             };
                             let (worker, miner) = (self.w.worker, self.w.miner);
-                            let d = self.go("post", worker, miner, TokenAmount::zero(), MinerMethod::SubmitWindowedPoSt as u64, Some(params), None);
+                            let d = self.go(if invalid { "post[invalid]" } else if skip { "post[skip]" } else { "post" }, worker, miner, TokenAmount::zero(), MinerMethod::SubmitWindowedPoSt as u64, Some(params), None);
                             if d.code == 0 { self.w.posts.push((dl.index, epoch, invalid)); }
                         }
                     }
@@ -1054,7 +1082,7 @@ impl<'a> Run<'a> {
             }
         }
         self.w.v.set_epoch(dl.last());
-        let plan = self.maybe_plan(6, 9);
+        let plan = if self.cron_faults { self.maybe_plan(3, 9) } else { None };
         self.tick(plan);
         self.w.v.set_epoch(dl.last() + 1);
     }
@@ -1138,7 +1166,7 @@ impl<'a> Run<'a> {
     }
 
     fn terminate(&mut self, from: Address) {
-        let k = 1 + self.r.below(4) as usize;
+        let k = 1 + self.r.below(6) as usize;
         let secs = self.pick_sectors(k);
         if secs.is_empty() { return; }
         let miner = self.w.miner;
@@ -1181,7 +1209,7 @@ impl<'a> Run<'a> {
 
     fn award(&mut self) {
         let penalty = match self.r.below(4) { 0 => TokenAmount::zero(), 1 => ta(self.r.below(1 << 40) as i128), _ => ta(self.r.below(200) as i128 * FIL / 4) };
-        let p = AwardBlockRewardParams { miner: self.w.miner, penalty, gas_reward: ta(self.r.below(1 << 50) as i128), win_count: self.r.range(0, 3) };
+        let p = AwardBlockRewardParams { miner: self.w.miner, penalty, gas_reward: ta(self.r.below(1 << 50) as i128), win_count: self.r.range(1, 3) };
         let plan = self.maybe_plan(8, 5);
         self.go("award", SYSTEM_ACTOR_ADDR, REWARD_ACTOR_ADDR, TokenAmount::zero(), RewardMethod::AwardBlockReward as u64, Some(p), plan);
     }
@@ -1223,6 +1251,9 @@ impl<'a> Run<'a> {
                         if mode == 2 && self.r.chance(75) {
                             self.agenda.extend([Act::Advance(1), Act::Advance(1), Act::DisputeAt(d)]);
                         }
+                        if (mode == 0 || mode == 3) && self.r.chance(45) {
+                            self.agenda.push(Act::AdvanceMany(48 + self.r.below(50), 100));
+                        }
                     }
                     None => self.advance_deadline(1),
                 }
@@ -1236,7 +1267,11 @@ impl<'a> Run<'a> {
                 }
             }
             Act::ProveCommit => self.prove_commit(),
-            Act::DeclareFaults => { let f = if self.r.chance(92) { worker } else { stranger }; self.declare(false, f) }
+            Act::DeclareFaults => {
+                let f = if self.r.chance(92) { worker } else { stranger };
+                self.declare(false, f);
+                if self.r.chance(40) { self.agenda.push(Act::AdvanceMany(48 + self.r.below(50), 100)); }
+            }
             Act::DeclareRecovered => { let f = if self.r.chance(90) { worker } else { stranger }; self.declare(true, f) }
             Act::Terminate => { let f = if self.r.chance(92) { worker } else { stranger }; self.terminate(f) }
             Act::Dispute => self.dispute(None),
@@ -1270,7 +1305,8 @@ impl<'a> Run<'a> {
         let a = match self.r.below(100) {
             0..=15 => Act::Travel(match self.r.below(20) { 0..=6 => 1, 7..=11 => 2, 12..=14 => 3, _ => 0 }),
             16..=23 => Act::Advance(if self.r.chance(70) { 1 } else { 0 }),
-            24..=27 => Act::AdvanceMany(48, 90),
+            24..=25 => Act::AdvanceMany(48, 90),
+            26..=27 => Act::Advance(1),
             28..=29 => Act::AdvanceMany(2 + self.r.below(5), 50),
             30..=37 => Act::PreCommit,
             38..=41 => Act::ProveCommit,
@@ -1315,18 +1351,25 @@ fn run_case(seed: u64, k: u64, len: usize, stats: &mut Stats) -> (Case, Vec<serd
     let mut r = root.fork(k);
     let plan = Plan {
         extra_fil: if r.chance(15) { *r.pick(&[0i64, 1, 5]) } else { *r.pick(&[60i64, 150, 400, 5000]) },
-        pad: !r.chance(12),
-        small_batches: r.chance(25),
+        pad: !r.chance(8),
+        small_batches: r.chance(12),
         circ_fil: *r.pick(&[0i64, 1_000_000, 500_000_000]),
-        workflow_onboard: if r.chance(55) { 1 + r.below(4) } else { 0 },
+        workflow_onboard: if r.chance(55) { 1 + r.below(5) } else { 0 },
+        fault_age_periods: 0,
     };
+    let mut plan = plan;
+    if plan.small_batches || r.chance(35) { plan.fault_age_periods = 1 + r.below(2) as i64; }
+    if plan.small_batches && plan.workflow_onboard < 3 { plan.workflow_onboard = 3 + r.below(3); plan.extra_fil = plan.extra_fil.max(400); }
     let key = if plan.pad { "histories_with_padded_network_pledge_total" } else { "histories_without_padding" };
     *stats.extra.entry(key.into()).or_insert(serde_json::json!(0)) = serde_json::json!(stats.extra.get(key).and_then(|x| x.as_u64()).unwrap_or(0) + 1);
     let w = setup(&plan);
+    CLAIM_LOSS_EXPLAINED.with(|c| *c.borrow_mut() = false);
     let init = snapshot(&w).coq();
-    let want = 1 + r.below(5) as usize;
-    let mut run = Run { w, r, stats, h: Hist { steps: vec![], script: vec![], fails: vec![], accepted_penalised: false, rejected: false }, seed, case: k, agenda: vec![], want_sectors: want };
-    run.h.script.push(format!("setup extra={}FIL pad={} small_batches={} circ={}FIL workflow_onboard={}", plan.extra_fil, plan.pad, plan.small_batches, plan.circ_fil, plan.workflow_onboard));
+    let want = 1 + r.below(7) as usize;
+    let mut run = Run { w, r, stats, h: Hist { steps: vec![], script: vec![], fails: vec![], accepted_penalised: false, rejected: false }, seed, case: k, agenda: vec![], want_sectors: want, cron_faults: false };
+    run.cron_faults = run.r.chance(15);
+    run.h.script.push(format!("setup extra={}FIL pad={} small_batches={} circ={}FIL workflow_onboard={} fault_age_periods={}", plan.extra_fil, plan.pad, plan.small_batches, plan.circ_fil, plan.workflow_onboard, plan.fault_age_periods));
+    if std::env::var("PENALTY_DEBUG").is_ok() { eprintln!("[{}] {}", k, run.h.script[0]); }
     for i in 0..len {
         run.step(i, len);
     }
